@@ -214,7 +214,10 @@ func (v *simView) ActiveProposals() []uint64 {
 
 func (v *simView) NodeForRefresh(sel int) (*NodeKeys, uint64) {
 	var all []*NodeKeys
-	for _, ek := range v.s.W.Entities {
+	for i, ek := range v.s.W.Entities {
+		if i < v.s.W.K.Anchors {
+			continue // anchor nodes never expire (documented precondition of C10)
+		}
 		all = append(all, ek.Nodes...)
 	}
 	if len(all) == 0 {
@@ -275,6 +278,7 @@ func (e Engine) Execute(sc *core.Scenario, st *core.Stats) (*core.Violation, boo
 	s.base = store.ScratchDir("chain")
 	defer os.RemoveAll(s.base)
 	s.Oracles = oraclesFor(e.Prop)
+	core.Logs.Reset()
 	defer func() {
 		verifhook.SetHandler(nil)
 		for _, t := range s.histTrees {
@@ -359,7 +363,18 @@ func firstOps(ops []json.RawMessage, n int) []json.RawMessage {
 	return ops[:n]
 }
 
+// electionPrecondition reports whether a fatal error is the documented precondition of C10
+// (not enough stake-eligible validators to elect a validator set).
+func electionPrecondition(msg string) bool {
+	return strings.Contains(msg, "failed to elect any validators") || strings.Contains(msg, "insufficient validators")
+}
+
 func (s *Sim) panicViolation(where string, r *Replica, pv interface{}, stack string) *core.Violation {
+	if electionPrecondition(fmt.Sprint(pv)) {
+		s.St.Inc("probe.precondition_validator_election_failed")
+		s.Aborted = "validator-election-precondition"
+		return nil
+	}
 	if os.Getenv("VERIF_DEBUG") != "" {
 		fmt.Fprintf(os.Stderr, "PANIC in %s replica %d height %d: %v\n%s\n", where, r.Idx, s.Height+1, pv, stack)
 	}
@@ -658,6 +673,11 @@ func (s *Sim) produceBlock(opIdx int, b *BlockOp) *core.Violation {
 		if pv != nil {
 			return s.panicViolation("PrepareProposal", p, pv, stack)
 		}
+		if err != nil && electionPrecondition(err.Error()+core.Logs.Recent()) {
+			s.St.Inc("probe.precondition_validator_election_failed")
+			s.Aborted = "validator-election-precondition"
+			return nil
+		}
 		if err != nil {
 			if s.Prop == "C10" {
 				return cViol("C10", "propose-error", "propose-error", fmt.Sprintf("replica %d could not build a proposal for height %d: %v", p.Idx, h, err))
@@ -674,6 +694,11 @@ func (s *Sim) produceBlock(opIdx int, b *BlockOp) *core.Violation {
 			pv, stack := core.Guard(func() { ok, err = r.Process(cp) })
 			if pv != nil {
 				return s.panicViolation("ProcessProposal", r, pv, stack)
+			}
+			if (!ok || err != nil) && electionPrecondition(core.Logs.Recent()) {
+				s.St.Inc("probe.precondition_validator_election_failed")
+				s.Aborted = "validator-election-precondition"
+				return nil
 			}
 			if (!ok || err != nil) && s.Prop == "C10" {
 				return cViol("C10", "honest-proposal-rejected", "honest-proposal-rejected", fmt.Sprintf("replica %d rejected the honest proposal of replica %d for height %d round %d (err=%v)", r.Idx, p.Idx, h, round, err))
@@ -794,6 +819,11 @@ func (s *Sim) produceBlock(opIdx int, b *BlockOp) *core.Violation {
 			if pv != nil {
 				return s.panicViolation("ProcessProposal", r, pv, stack)
 			}
+			if (!ok || perr != nil) && electionPrecondition(core.Logs.Recent()) {
+				s.St.Inc("probe.precondition_validator_election_failed")
+				s.Aborted = "validator-election-precondition"
+				return nil
+			}
 			if !ok || perr != nil {
 				if s.Prop == "C10" || s.Prop == "C01" {
 					return cViol(s.Prop, "honest-proposal-rejected", "honest-proposal-rejected", fmt.Sprintf("replica %d (%s) rejected the honest proposal of replica %d for height %d (err=%v)", r.Idx, name, p.Idx, h, perr))
@@ -829,6 +859,9 @@ func (s *Sim) produceBlock(opIdx int, b *BlockOp) *core.Violation {
 	s.St.Distinct("app_hashes", core.Hash64(refRes.AppHash))
 	if len(refRes.ValUpdates) > 0 {
 		s.St.Inc("probe.validator_set_change")
+	}
+	for k, n := range refRes.EventKinds {
+		s.St.Add("probe.event."+k, int64(n))
 	}
 	// Remove included transactions from the pool; refresh pending nonces from the chain.
 	sort.Sort(sort.Reverse(sort.IntSlice(poolIdx)))
